@@ -27,6 +27,13 @@
      element below size() alive - the basic guarantee in std::vector's sense; that no VISIBLE element is moved-from is
      false ([..._moved_from_visible_refuted]: known finding F25), and without the catch block of shift_right an element
      stayed alive beyond size() ([..._leak_before_fix_refuted]);
+   - [C09_throwing_moves_swap_basic] / [..._swap_conserves] (SwapThrow.v): vec::swap_deep - the swap of two inline storages and the
+     element-wise path of swap2 - for the element type whose moves throw: std::swap's temporary is destroyed by the unwinding, the
+     relocation of the longer tail rolls back; after a throw at ANY of the moves both ranges are vectors of their ORIGINAL sizes
+     (what the size words, written only after swap_deep returned, still claim), every element alive, every other slot raw, the
+     temporary raw, n1 + n2 objects alive; on completion the sizes are exchanged; with no throw pending the model is
+     Transfer.swap_deep ([C09_throwing_moves_swap_is_swap_deep]); a moved-from element can be visible
+     ([C09_throwing_moves_swap_moved_from_visible_refuted], the same known finding F25);
    - [C09_tr_*] (SlotsTR.v): the trivially relocatable overloads (bitwise relocation, source slot raw afterwards): insert(pos, n,
      v) and insert(pos, first, last) with their handler are strong at every position for every range content, single-element
      insertion within capacity likewise; before the repair the gap stayed raw below size() ([C09_tr_insert_count_before_fix_refuted]);
@@ -53,7 +60,7 @@
    the element ledger, the allocator ledger, contents (strong operations: unchanged) and usability are checked. *)
 From Coq Require Import ZArith List Bool Sorted.
 From Amc Require Import Throw.
-From Amc Require EmplaceGrow ThrowMove SlotsTR Transfer AliasThrow Overlay.
+From Amc Require EmplaceGrow ThrowMove SlotsTR Transfer AliasThrow Overlay SwapThrow.
 From Amc Require Hint HintTV.
 From Amc.Gen Require HintGen SsetGen.
 From Amc Require SsetTV.
@@ -250,6 +257,37 @@ Theorem C09_throwing_moves_leak_before_fix_refuted :
   exists m', Inv (ThrowMove.init 3 5) 3 5 /\ ThrowMove.shift_right1 false (ThrowMove.init 3 5) (Some 1%nat) 0 (3 - 0) = Threw m' /\
   m' 3%nat = Live 12 /\ ~ ThrowMove.Basic m' 3 5.
 Proof. exact ThrowMove.shift_right1_nofix_refuted. Qed.
+
+(* swap of two inline storages / element-wise swap2 with throwing moves (SwapThrow.v) *)
+Theorem C09_throwing_moves_swap_basic :
+  forall m th t b1 n1 cap1 b2 n2 cap2,
+  Transfer.Rng m b1 n1 cap1 -> Transfer.Rng m b2 n2 cap2 -> Transfer.Disj b1 cap1 b2 cap2 -> n2 <= cap1 -> n1 <= cap2 ->
+  m t = Raw -> ~ Transfer.inR b1 cap1 t -> ~ Transfer.inR b2 cap2 t ->
+  match SwapThrow.swap_deep_mt m th t b1 n1 b2 n2 with
+  | Done m' _ => SwapThrow.ARng m' b1 n2 cap1 /\ SwapThrow.ARng m' b2 n1 cap2 /\ m' t = Raw /\
+                 (forall j, ~ Transfer.inR b1 cap1 j -> ~ Transfer.inR b2 cap2 j -> j <> t -> m' j = m j)
+  | Threw m' => SwapThrow.ARng m' b1 n1 cap1 /\ SwapThrow.ARng m' b2 n2 cap2 /\ m' t = Raw /\
+                (forall j, ~ Transfer.inR b1 cap1 j -> ~ Transfer.inR b2 cap2 j -> j <> t -> m' j = m j)
+  | Err _ => False end.
+Proof. exact SwapThrow.swap_deep_mt_basic. Qed.
+
+Theorem C09_throwing_moves_swap_conserves :
+  forall m th t b1 n1 cap1 b2 n2 cap2,
+  Transfer.Rng m b1 n1 cap1 -> Transfer.Rng m b2 n2 cap2 -> Transfer.Disj b1 cap1 b2 cap2 -> n2 <= cap1 -> n1 <= cap2 ->
+  m t = Raw -> ~ Transfer.inR b1 cap1 t -> ~ Transfer.inR b2 cap2 t ->
+  match SwapThrow.swap_deep_mt m th t b1 n1 b2 n2 with
+  | Done m' _ | Threw m' => Transfer.count_live m' b1 cap1 + Transfer.count_live m' b2 cap2 = n1 + n2 /\ Transfer.count_live m' t 1 = 0
+  | Err _ => False end.
+Proof. exact SwapThrow.swap_deep_mt_conserves. Qed.
+
+Theorem C09_throwing_moves_swap_is_swap_deep :
+  forall m t b1 n1 b2 n2, SwapThrow.swap_deep_mt m None t b1 n1 b2 n2 = Transfer.lift (Transfer.swap_deep false m t b1 n1 b2 n2) None.
+Proof. exact SwapThrow.swap_deep_mt_none. Qed.
+
+Theorem C09_throwing_moves_swap_moved_from_visible_refuted :
+  exists m', SwapThrow.swap_deep_mt (Transfer.init2 3 4 1 3) (Some 1%nat) 5 0 3 7 1 = Threw m' /\ m' 0%nat = Moved /\
+             Transfer.init2 3 4 1 3 0%nat = Live 10.
+Proof. exact SwapThrow.swap_deep_mt_strong_refuted. Qed.
 
 (* ---- trivially relocatable element types ---- *)
 Theorem C09_tr_insert_count_anywhere_strong :
